@@ -155,34 +155,43 @@ Proof.
   intros. unfold dns_query. apply bytes_ok_app. split; [oks|]. apply bytes_ok_app. split; [assumption|oks].
 Qed.
 
-(* SendMDNSQuery / SendLLMNRQuery: the question bytes dns_query builds reach 224.0.0.251:5353 /
-   224.0.0.252:5355 in a frame addressed to the group's multicast MAC *)
+(* SendMDNSQuery / SendLLMNRQuery: for a name dnsmessage accepts, the question bytes dns_query builds reach
+   224.0.0.251:5353 / 224.0.0.252:5355 in a frame addressed to the group's multicast MAC; any other name is
+   refused (Proofs/SendDns.v relates the bytes to the name) *)
 Lemma mdns_query_frame c name :
-  mac_ok (host_mac c) -> ip4_ok (host_ip4 c) -> bytes_ok (dns_name name) -> (length (dns_name name) <= 1400)%nat ->
+  mac_ok (host_mac c) -> ip4_ok (host_ip4 c) -> dns_pack_ok name = true ->
+  bytes_ok (dns_wire_name name) -> (length (dns_wire_name name) <= 1400)%nat ->
   exists fr, send_mdns_query c name = Ok [fr] /\
     wf_udp4 (host_mac c) (mac_of_mcast4 [224;0;0;251]) (host_ip4 c) [224;0;0;251] 5353 5353
-      (beq (dns_query 0 0 (dns_name name) 255 255)) true fr = true.
+      (beq (dns_query 0 0 (dns_wire_name name) 255 255)) true fr = true.
 Proof.
-  intros H1 H2 Hn Hl. unfold send_mdns_query.
-  destruct (mdns4_wf c (dns_query 0 0 (dns_name name) 255 255) (host_mac c) (host_ip4 c) (a_mac mdns_ip4_addr) [224;0;0;251] 5353)
+  intros H1 H2 Hpk Hn Hl. unfold send_mdns_query. rewrite Hpk.
+  destruct (mdns4_wf c (dns_query 0 0 (dns_wire_name name) 255 255) (host_mac c) (host_ip4 c) (a_mac mdns_ip4_addr) [224;0;0;251] 5353)
     as (fr & E & W); auto; try lia.
   all: try (split; [reflexivity|oks]).
   - apply dns_query_ok; auto; lia.
   - unfold dns_query. rewrite !app_length. cbn [length]. lia.
-  - exists fr. split; [exact E|]. apply (wf_udp4_weaken _ _ _ _ _ _ (dns_query 0 0 (dns_name name) 255 255)); auto using beq_refl.
+  - exists fr. split; [exact E|]. apply (wf_udp4_weaken _ _ _ _ _ _ (dns_query 0 0 (dns_wire_name name) 255 255)); auto using beq_refl.
 Qed.
 
 Lemma llmnr_query_frame c name :
-  mac_ok (host_mac c) -> ip4_ok (host_ip4 c) -> bytes_ok (dns_name name) -> (length (dns_name name) <= 1400)%nat ->
+  mac_ok (host_mac c) -> ip4_ok (host_ip4 c) -> dns_pack_ok name = true ->
+  bytes_ok (dns_wire_name name) -> (length (dns_wire_name name) <= 1400)%nat ->
   exists fr, send_llmnr_query c name = Ok [fr] /\
     wf_udp4 (host_mac c) (mac_of_mcast4 [224;0;0;252]) (host_ip4 c) [224;0;0;252] 5355 5355
-      (beq (dns_query 0 0 (dns_name name) 12 255)) true fr = true.
+      (beq (dns_query 0 0 (dns_wire_name name) 12 255)) true fr = true.
 Proof.
-  intros H1 H2 Hn Hl. unfold send_llmnr_query.
-  destruct (mdns4_wf c (dns_query 0 0 (dns_name name) 12 255) (host_mac c) (host_ip4 c) (a_mac llmnr_ip4_addr) [224;0;0;252] 5355)
+  intros H1 H2 Hpk Hn Hl. unfold send_llmnr_query. rewrite Hpk.
+  destruct (mdns4_wf c (dns_query 0 0 (dns_wire_name name) 12 255) (host_mac c) (host_ip4 c) (a_mac llmnr_ip4_addr) [224;0;0;252] 5355)
     as (fr & E & W); auto; try lia.
   all: try (split; [reflexivity|oks]).
   - apply dns_query_ok; auto; lia.
   - unfold dns_query. rewrite !app_length. cbn [length]. lia.
-  - exists fr. split; [exact E|]. apply (wf_udp4_weaken _ _ _ _ _ _ (dns_query 0 0 (dns_name name) 12 255)); auto using beq_refl.
+  - exists fr. split; [exact E|]. apply (wf_udp4_weaken _ _ _ _ _ _ (dns_query 0 0 (dns_wire_name name) 12 255)); auto using beq_refl.
 Qed.
+
+(* a name dnsmessage does not accept (empty, no final dot, empty or > 63-byte label, > 254 bytes): nothing is sent *)
+Lemma mdns_query_refuses c name : dns_pack_ok name = false -> send_mdns_query c name = Ok [].
+Proof. unfold send_mdns_query. intros ->. reflexivity. Qed.
+Lemma llmnr_query_refuses c name : dns_pack_ok name = false -> send_llmnr_query c name = Ok [].
+Proof. unfold send_llmnr_query. intros ->. reflexivity. Qed.
